@@ -27,16 +27,16 @@ theorem rejected_never_block {net : Nat → Info} {c : Nat} {U : List Nat} (hc :
 /-- `Sync` level (after its `fix:` commit, finding F18): a head that the access controller refuses is
 never handed to the replicator — so no fetch, which might never end because nobody serves the
 block, is ever started on behalf of a non-writer. (The theorem above assumes every fetch ends.) -/
-theorem refused_heads_are_never_fetched (acl : Acl) (hs : List RawHead) (es : List Entry)
-    (h : syncHeads acl hs [] = .load es) :
-    ∀ e ∈ es, ∃ r ∈ hs, r.complete = true ∧ acl.canAppend r.entry = true ∧ r.entry = e :=
-  (syncHeads_loads_only_complete acl hs es h).2
+theorem refused_heads_are_never_fetched (acl : Acl) (id : Nat) (hs : List RawHead) (es : List Entry)
+    (h : syncHeads acl id hs [] = .load es) :
+    ∀ e ∈ es, ∃ r ∈ hs, r.complete = true ∧ r.entry.logId = id ∧ acl.canAppend r.entry = true ∧ r.entry = e :=
+  syncHeads_loads_only_own_admitted acl id hs es h
 
 /-- Refutation witness for the tree before that repair: the refused head was on the list handed to
 the replicator; on the real store one such head whose block nobody serves blocked every later
 replication (corpus/C10/f18) -/
 theorem refused_head_was_fetched_before_the_fix (e : Entry) :
-    syncHeadsLoadsRefused {} [{ entry := e }] [] = .load [e] ∧ syncHeads {} [{ entry := e }] [] = .load [] :=
+    syncHeadsLoadsRefused {} [{ entry := e }] [] = .load [e] ∧ syncHeads0 {} [{ entry := e }] [] = .load [] :=
   refused_head_was_loaded e
 
 /-- Store level (`replicationLoadComplete` after its `fix:` commit): a batch of single-entry logs is
